@@ -8,7 +8,7 @@
    of the spec-level relation of the atom's kind (Spec/Matching.v) under the atom's own ignore_case / normalize
    flags, negated for negative atoms. *)
 From Coq Require Import NArith List Bool.
-From NV Require Import Model.Chars Model.PatternParse Spec.Matching.
+From NV Require Import Model.Chars Model.Matcher Model.PatternParse Spec.Matching Spec.Statements.
 Import ListNotations.
 Local Open Scope N_scope.
 
@@ -111,3 +111,23 @@ Definition C07_append_prefix_dollar_old_stmt : Prop :=
     let new_atoms := pattern_parse true seg (old ++ suffix) cm nm in
     update_allowed_old old_atoms = true -> last_fold_norm_ok old_atoms = true ->
     pattern_matches m hr h new_atoms = true -> pattern_matches m hr h old_atoms = true.
+
+(* ---- the same statement against the MODEL of the matcher entry points (`run`, Model/Matcher.v): what
+   Pattern::score actually computes, all atom kinds (proved in Proofs/AppendRun.v) ------------------------- *)
+Definition algo_of (k : atom_kind) : algo :=
+  match k with AFuzzy => Fuzzy | ASubstring => Substring | APrefix => Prefix | APostfix => Postfix | AExact => Exact end.
+Definition needle_str (a : atom) : ustr := {| rp := a_repr a; cs := a_needle a |}.
+(* Atom::score(haystack).is_some() *)
+Definition atom_runs (m : config) (hs : ustr) (a : atom) : bool :=
+  xorb (a_negative a) (is_some_match (run (atom_cfg m a) (algo_of (a_kind a)) hs (needle_str a))).
+(* Pattern::score(haystack).is_some() (C15: the conjunction of the atoms) *)
+Definition pattern_runs (m : config) (hs : ustr) (atoms : list atom) : bool := forallb (atom_runs m hs) atoms.
+
+Definition C07_append_refines_run_stmt : Prop :=
+  forall (seg : list N -> list N) (cm : case_matching) (nm : normalization) (old suffix : list N)
+         (m : config) (hs : ustr),
+    seg_faithful seg -> seg_simple (old ++ suffix) = true -> wf_str hs ->
+    let old_atoms := pattern_parse true seg old cm nm in
+    let new_atoms := pattern_parse true seg (old ++ suffix) cm nm in
+    update_allowed old_atoms = true -> last_fold_norm_ok old_atoms = true ->
+    pattern_runs m hs new_atoms = true -> pattern_runs m hs old_atoms = true.
